@@ -154,4 +154,18 @@ CHECKS = {
             R("TestC02_MultiFault", 1600, 40000, shards=16),
         ],
     ),
+    "C14": dict(
+        level="exploration",
+        rule=("SinglesAndPairs (exhaustive): every field name the row builder understands (28: context, header, block-transaction, receipt, log and trace level), alone and in every pair, without an event declaration (26 fields: all but log_*; trace fields make it trace-indexing) and with one (23 fields: all but trace_*): 627 field sets. "
+              "Each set becomes a declaration, goes through ValidateFix/Migrate and is indexed over a 3-block chain in which every field of every block/tx/receipt/log/trace is distinct and non-zero; every stored column must equal the value the node reports for that item (full path JSON-RPC -> client -> row builder -> COPY -> stored value). LargerSets: rapid sets chosen by membership class (whole classes in/out, then members), shuffled. "
+              "non-trivial = the set spans >= 2 provenance classes (needs more than one RPC method)."),
+        exhaustive_keys=["SinglesAndPairs:exhaustive_singles_and_pairs"],
+        assumptions=["field provenance is taken from the JSON-RPC specification (harness/model/project.go), not from shovel's planner tables",
+                     "log fields are only meaningful with an event declaration, trace fields only without one"],
+        units=[
+            P("TestC14_SinglesAndPairs", shards=16),
+            R("TestC14_LargerSets", 480, 16000, shards=16),
+            R("TestC14_TwoIntegrations", 480, 16000, shards=16),
+        ],
+    ),
 }
